@@ -36,11 +36,13 @@ def column (counts : List Rat) (total : Nat) (pick : List Nat) : List Nat :=
   (colCounts counts total pick).zipIdx.flatMap (fun (k, i) => List.replicate k i)
 
 /-- checker applied to an observed histogram `out` of a generated column: right length, sums to
-`total`, every entry is the floor or the floor plus one of its target, and zero targets get zero -/
+`total`, every entry is the floor of its target, or the floor plus one *when the target has a
+positive fractional part*, and zero targets get zero -/
 def colOK (counts : List Rat) (total : Nat) (out : List Nat) : Bool :=
   let xs := scaled counts total
   out.length == counts.length && sumN out == total &&
-  (List.zip xs out).all (fun (x, o) => (o == x.floor.toNat || o == x.floor.toNat + 1) && (x != 0 || o == 0))
+  (List.zip xs out).all (fun (x, o) =>
+    (o == x.floor.toNat || (o == x.floor.toNat + 1 && decide (0 < x - x.floor))) && (x != 0 || o == 0))
 
 end Synth
 end PGM
